@@ -237,6 +237,7 @@ type World struct {
 	OnDeliver   func(c *TCPConn, toServer bool, n int, data []byte)
 	OnFatal     func(g *G, msg string)
 	DiskFn      func(c DiskCall) DiskVerdict // R10: verdict for one data-file read/write
+	DiskSlowFor func(c DiskCall) time.Duration
 	Log         func(format string, a ...interface{})
 	KeysPerm    bool // permute map iteration order (seeded) instead of plain sorted order
 
